@@ -84,18 +84,24 @@ fn gen_k(rng: &mut Rng, rem: usize) -> usize {
     }
 }
 
-fn gen_backend(rng: &mut Rng, ty: Ty, cfg: &GenCfg, for_view: bool) -> Backend {
+fn gen_backend(rng: &mut Rng, ty: Ty, cfg: &GenCfg, for_view: bool, len: usize) -> Backend {
     if ty == Ty::Trk {
-        return match rng.below(5) {
+        return match rng.below(7) {
             0 => Backend::Vec,
             1 => Backend::ArcVec,
             2 => Backend::Deque { head: rng.below(6) },
             3 => Backend::Array1,
+            4 => Backend::SliceRef,
+            5 => Backend::SliceMut,
             _ => Backend::Sim,
         };
     }
     loop {
-        let b = match rng.below(if cfg.polars { 12 } else { 10 }) {
+        let b = match rng.below(if cfg.polars { 16 } else { 14 }) {
+            10 => Backend::SliceRef,
+            11 => Backend::SliceMut,
+            12 => Backend::FixedArray,
+            13 => Backend::NdViewMut,
             0 | 1 => Backend::Vec,
             2 => Backend::ArcVec,
             3 => Backend::Deque { head: rng.below(8) },
@@ -113,6 +119,7 @@ fn gen_backend(rng: &mut Rng, ty: Ty, cfg: &GenCfg, for_view: bool) -> Backend {
         match &b {
             Backend::Polars { .. } if !matches!(ty, Ty::OptF64 | Ty::OptI32) => continue,
             Backend::Sim if for_view => continue,
+            Backend::FixedArray if len > 6 => continue,
             _ => return b,
         }
     }
@@ -130,6 +137,9 @@ fn backend_item_ty(ty: Ty, backend: &Backend) -> Ty {
 }
 
 fn gen_viewop(rng: &mut Rng, item_ty: Ty, len: usize, sw: &Swarm, backend: &Backend) -> ViewOp {
+    if matches!(backend, Backend::SliceRef | Backend::SliceMut) {
+        return if rng.chance(1, 3) { ViewOp::TiterMap } else { ViewOp::Titer };
+    }
     if *backend == Backend::Sim || item_ty == Ty::Trk {
         return if item_ty == Ty::Trk && *backend != Backend::Sim && rng.chance(1, 3) {
             ViewOp::TiterMap
@@ -261,7 +271,7 @@ fn gen_stage(rng: &mut Rng, cur: &Cursor, sw: &Swarm, cfg: &GenCfg) -> Option<St
             13 => Stage::MapId,
             14 => Stage::Take { k: gen_k(rng, cur.rem) },
             15 | 16 | 17 if sw.remat => {
-                let backend = gen_backend(rng, ty, cfg, true);
+                let backend = gen_backend(rng, ty, cfg, true, cur.rem);
                 let item_ty = backend_item_ty(ty, &backend);
                 let op = gen_viewop(rng, item_ty, cur.rem, sw, &backend);
                 Stage::Remat { backend, op }
@@ -420,7 +430,7 @@ pub fn gen_pipe(rng: &mut Rng, cfg: &GenCfg) -> Pipe {
     };
     let len = gen_len(rng, cfg.max_len);
     let data = gen_data(rng, ty, len);
-    let backend = if sinks && rng.chance(7, 10) { Backend::Sim } else { gen_backend(rng, ty, cfg, false) };
+    let backend = if sinks && rng.chance(7, 10) { Backend::Sim } else { gen_backend(rng, ty, cfg, false, len) };
     let item_ty = backend_item_ty(ty, &backend);
     let root = if sinks {
         if backend == Backend::Sim || rng.chance(2, 3) { ViewOp::Titer } else { gen_viewop(rng, item_ty, len, &sw, &backend) }
